@@ -118,11 +118,27 @@ func c20History(res *Result, d *Driver, rng *Rng, root string, ct *cgroup.Contro
 			n := names[rng.Intn(len(names))]
 			full := filepath.Join(root, n)
 			existed := dirExists(ctrlDirs(full)[0])
-			cg, err := top.New(n)
-			key := fmt.Sprintf("%s New(%s) existed=%v", tag, n, existed)
+			var cg cgroup.Cgroup
+			var err error
+			how := "New"
+			switch {
+			case rng.Chance(30):
+				how = "Nest" // the root handle holds no process: Nest = New + moving nobody
+				cg, err = top.Nest(n)
+			case existed && rng.Chance(30):
+				how = "OpenExisting"
+				cg, err = cgroup.OpenExisting(full, ct)
+			default:
+				cg, err = top.New(n)
+			}
+			key := fmt.Sprintf("%s %s(%s) existed=%v", tag, how, n, existed)
 			res.Case(key+itoa(s), true, tag+"-new")
 			if err != nil {
-				bad("New failed", key, err.Error())
+				bad(how+" failed", key, err.Error())
+				continue
+			}
+			if cg == nil {
+				bad(how+" returned a nil handle and no error", key, "nil, nil")
 				continue
 			}
 			if cg.Existing() != existed {
